@@ -182,7 +182,8 @@ func (d Date) MarshalBinary() ([]byte, error) {
 }
 
 // UnmarshalBinary sets date from passed data.
-// It can return wrapped ErrUnsupportedVersion or ErrInvalidLength.
+// It can return wrapped ErrUnsupportedVersion, ErrInvalidLength or ErrInvalidDate.
+// If error is returned, date is not changed.
 func (d *Date) UnmarshalBinary(data []byte) error {
 	l := len(data)
 	if l == 0 {
@@ -194,9 +195,14 @@ func (d *Date) UnmarshalBinary(data []byte) error {
 	if l != 7 { // version(1)+year(4)+month(1)+day(1)
 		return fmt.Errorf("date.Date.UnmarshalBinary: %w: expected 7 instead of %d", ErrInvalidLength, l)
 	}
-	d.year = (int32(data[1])<<24 | int32(data[2])<<16 | int32(data[3])<<8 | int32(data[4])) - 1
-	d.month = data[5] - 1
-	d.day = data[6] - 1
+	year := int32(data[1])<<24 | int32(data[2])<<16 | int32(data[3])<<8 | int32(data[4])
+	month, day := data[5], data[6]
+	if month < 1 || month > 12 || day < 1 || int(day) > daysIn(int(year), Month(month)) {
+		return fmt.Errorf("date.Date.UnmarshalBinary: %w: %d-%d-%d", ErrInvalidDate, year, month, day)
+	}
+	d.year = year - 1
+	d.month = month - 1
+	d.day = day - 1
 	return nil
 }
 
@@ -256,6 +262,21 @@ func (d Date) format(f Format) []byte {
 		b, _ = DefaultFormatter(nil, d, f)
 	}
 	return b
+}
+
+// daysIn returns count of days in specified month of year (proleptic Gregorian calendar).
+func daysIn(year int, month Month) int {
+	switch month {
+	case February:
+		if year%4 == 0 && (year%100 != 0 || year%400 == 0) {
+			return 29
+		}
+		return 28
+	case April, June, September, November:
+		return 30
+	default:
+		return 31
+	}
 }
 
 func formatByVerb(verb rune) Format {
